@@ -15,9 +15,12 @@ open Bec2Verif Der
 /-- `orderlen(order)`: bytes needed for the hex form -/
 def orderlen (order : Nat) : Nat := (beBytes order).length
 
-/-- `number_to_string(num, order)`: fixed length; `assert len(string) == l` fails for a number that is too large -/
+/-- `number_to_string(num, order)`: fixed length; a number that is too large has more hex digits than `2l`:
+an odd count makes `binascii.unhexlify` raise (`binascii.Error`, a ValueError), an even count fails the
+`assert len(string) == l` -/
 def numberToString (num order : Nat) : Except Err Bytes :=
-  if num < 256 ^ orderlen order then .ok (toBE (orderlen order) num) else .error .assertionError
+  if num < 256 ^ orderlen order then .ok (toBE (orderlen order) num)
+  else if (num.log2 / 4 + 1) % 2 = 1 then .error .valueError else .error .assertionError
 
 /-! ### modular arithmetic used by the compressed form -/
 
